@@ -213,7 +213,7 @@ def _family(client_async: bool):
 
 FAMILIES = {'retry.sync': _family(False), 'retry.async': _family(True)}
 PLAN = {
-    'quick': {'retry.sync': 6000, 'retry.async': 6000},
+    'quick': {'retry.sync': 60000, 'retry.async': 60000},
     'thorough': {'retry.sync': 40000, 'retry.async': 40000},
 }
 THOROUGH_BUDGET_S = 600
